@@ -27,6 +27,8 @@ func TestMakeReplays(t *testing.T) {
 	write("trunc-utf8-sourcescontent", "transform", "finding #9: hangs in QuoteForJSON until helpers.DecodeWTF8Rune advances over a truncated sequence", mkTCase(sm(1), []byte("x=1//\xe0"), nil))
 	write("trunc-utf8-css-local-name", "transform", "finding #9, second route: a local CSS name that ends in a truncated sequence is quoted for the `names` of the source map (found by the quick tier, seed 1)", mkTCase(5|sm(2)|1<<bNoSrcCont, []byte(".b\xc0 { color: blue }"), nil))
 	write("static-block-in-object-literal", "transform", "an object literal with a `static {}` member is parsed as a class static block and the visitor panics (`panic: Unexpected expression of type <nil>`); found by the thorough tier (rapid `transform`, seed 1)", mkTCase(0, []byte("({ static {} })"), nil))
+	write("css-identifier-at-eof", "transform", "css_lexer.RangeOfIdentifier never stops when the identifier it is asked about is the last thing in the file (here: the warning about the `composes` location); found by the thorough tier (rapid `transform`, seed 2), minimised by delta debugging", mkTCase(5, []byte(".f{composes:from u"), nil))
+	write("decorator-export-default-not-a-class", "transform", "after `@x export default @y` the statement that follows is not a class: reported as `panic: Internal error`; found by native fuzzing (FuzzTransform, thorough tier, seed 2)", mkTCase(2, []byte("@x export default @y {}"), nil))
 	write("hazard-trunc-utf8-no-sourcescontent", "transform", "the same input without sourcesContent returns", mkTCase(sm(1)|1<<bNoSrcCont, []byte("x=1//\xe0"), nil))
 	write("hazard-invalid-utf8-middle", "transform", "invalid UTF-8 in the middle with sourcesContent returns", mkTCase(sm(1), []byte("x=1//\xe0\xfd\nlet y = '\xff\xc0\x80\xed\xa0\x80'"), nil))
 	write("hazard-nul-bytes", "transform", "", mkTCase(2|1<<bMinSyntax, []byte("let \x00x = `\x00${\x00}`\x00"), nil))
